@@ -33,4 +33,14 @@ theorem exField_wf : WF exField 2 1 2 := by
   · intro _
     exact ⟨["a", "b"], rfl, rfl, by decide, by decide, by decide, by decide⟩
 
+/-- a rounding that keeps multiples of 1/8 (stand-in for the text writer's ten digits) -/
+def rnd8 (q : Rat) : Rat := ((q * 8 + 1/2).floor : Rat) / 8
+
+/-- the example field on a region whose x edge (2/3, cell 1/3) no multiple of 1/8 holds, with a
+subregion of one cell in x -/
+def exThird : Fld :=
+  { exField with mesh := { region := { exField.mesh.region with pmin := [0, 0, 0], pmax := [2/3, 3, 1] },
+                           n := [2, 1, 2], bc := "",
+                           subs := [("s", { exField.mesh.region with pmin := [0, 0, 0], pmax := [1/3, 3, 1/2] })] } }
+
 end DFV.C16
